@@ -778,5 +778,7 @@ def match_known(known, pid, what, payload):
             continue
         if 'op_regex' in m and not any(re.search(m['op_regex'], o) for o in payload.get('ops', [])):
             continue
+        if 'label_regex' in m and not re.search(m['label_regex'], payload.get('label', '')):
+            continue
         return k
     return None
